@@ -8,7 +8,7 @@ def check(run, replay):
     binary = run.build("queryrun")
     if not replay:
         qc.model_check_laws(run, thorough)
-    n = 30000 if thorough else 2500
+    n = 10000 if thorough else 2500
     cases = gen_cases = qc.gen_cases(run, n, 5, "a")
     cases6 = qc.gen_cases(run, n // 3, 7, "b")
     viol = []
@@ -17,7 +17,7 @@ def check(run, replay):
     samples = []
     for f in (cases, cases6):
         try:
-            res = qc.run_cases(run, binary, f, [], None if thorough else "70s")
+            res = qc.run_cases(run, binary, f, [], "500s" if thorough else "70s")
         except vlib.Crash as c:
             viol.append({"kind": "node-panic", "msg": "DefraDB died while answering a query: %s\n%s" % (c.head, c.stack[:1500])})
             continue
@@ -35,7 +35,7 @@ def check(run, replay):
     for attempt in range(4):
         out = os.path.join(run.tmp, "np-%d.json" % attempt)
         prog = os.path.join(run.tmp, "np-progress-%d.txt" % attempt)
-        args = ["-cases", cases, "-nopanic", "-out", out, "-seed", str(run.seed), "-progress", prog, "-max", str(20000 if thorough else 2500)]
+        args = ["-cases", cases, "-nopanic", "-out", out, "-seed", str(run.seed), "-progress", prog, "-max", str(8000 if thorough else 2500)]
         if skip:
             args += ["-skipops", ",".join(skip)]
         try:
